@@ -192,6 +192,18 @@ theorem touches_opChmod {P} (p : Bytes) (m : Nat) (s : DState) (h : P (absPath s
     Touches P s (run (opChmod p m) s).2 := by
   rw [run_opChmod]; exact touches_doOp _ s (by simpa [FsOp.paths] using h)
 
+/-- opening the reject file (`openRejects`) creates that file, or nothing -/
+theorem touches_openRejects {P} (p : Bytes) (s : DState) (h : P (absPath s p)) : Touches P s (run (openRejects p) s).2 := by
+  unfold openRejects
+  rw [run_bind_ok (run_get s)]
+  split
+  · rw [run_bind_ok (rfl : run (fsExists p) s = (.ok (s.fs.stat (absPath s p)).isSome, s))]
+    split
+    · exact touches_opCreat p s h
+    · exact Touches.refl s
+  · rw [run_bind_ok (run_set _ s)]
+    exact (Touches.of_eq rfl rfl).trans (touches_opCreat p _ h)
+
 /-- `ensure_parent_directories p` only makes directories among the prefixes of `p` -/
 theorem touches_ensureParentDirs (p : Bytes) (s : DState) :
     Touches (fun q => ∃ d ∈ dirPrefixes p, q = absPath s d) s (run (ensureParentDirs p) s).2 := by
